@@ -20,12 +20,15 @@ Definition pjoin_required (j : joinspec) (fixed : tree) : gset tag :=
 Definition req_required (r : req) : gset tag :=
   match r with RUn o => op_required o | RJoin j f _ => pjoin_required j f end.
 
+Definition is_reordering (o : uop) : bool := match o with Sort _ => true | _ => false end.
+
 (* commute self (Un cur target): tcols = current.target.columns *)
 Definition commute (self : req) (cur : uop) (tcols : gset tag) : commutator :=
   let ccols := op_columns cur tcols in
   match self with
   | RUn (Calc t e) =>
       if negb (bool_decide (cols_e e ⊆ tcols)) then comm_fail cur
+      else if bool_decide (t ∈ tcols) then comm_fail cur
       else Comm (Some self) (match cur with Proj cs => Proj (cs ∪ {[t]}) | _ => cur end) true
   | RUn Dedup =>
       if negb (bool_decide (tcols ⊆ ccols)) then comm_fail cur
@@ -54,7 +57,7 @@ Definition commute (self : req) (cur : uop) (tcols : gset tag) : commutator :=
       end
   | RUn (Sort ts) =>
       if negb (bool_decide (op_required (Sort ts) ⊆ tcols)) then comm_fail cur
-      else if is_order_dependent cur then comm_fail cur
+      else if is_order_dependent cur || is_reordering cur then comm_fail cur
       else Comm (Some self) cur true
   | RUn Ident => Comm (Some self) cur true
   | RJoin j f lhs =>
@@ -62,7 +65,8 @@ Definition commute (self : req) (cur : uop) (tcols : gset tag) : commutator :=
       | Dedup => comm_fail cur
       | Proj _ => Comm (Some self) (Proj (ccols ∪ columns f)) true
       | _ =>
-          if negb (bool_decide (pjoin_required j f ⊆ tcols)) then comm_fail cur
+          if (match cur with Calc t _ => bool_decide (t ∈ columns f) | _ => false end) then comm_fail cur
+          else if negb (bool_decide (pjoin_required j f ⊆ tcols)) then comm_fail cur
           else if is_count_dependent cur then comm_fail cur
           else Comm (Some self) cur true
       end
